@@ -9,8 +9,13 @@ U32 = (1 << 32) - 1
 
 
 # ----------------------------------------------------------------------------- case <-> records
-def fmt_case(mbase, msize, qs, items):
-    out = ["M", str(mbase), str(msize), "Q", str(len(qs))] + [str(q) for q in qs] + ["R"]
+def fmt_case(mbase, msize, qs, items, extra=()):
+    out = ["M", str(mbase), str(msize)]
+    if extra:
+        out += ["X", str(len(extra))]
+        for (b, sz, hs) in extra:
+            out += [str(b), str(sz), "1" if hs else "0"]
+    out += ["Q", str(len(qs))] + [str(q) for q in qs] + ["R"]
     for it in items:
         k = it[0]
         if k == "I":
@@ -45,11 +50,19 @@ def parse_case(line):
         return c
     t = line.split()
     c = Case()
-    assert t[0] == "M" and t[3] == "Q"
+    assert t[0] == "M"
     c.mbase, c.msize = int(t[1]), int(t[2])
-    n = int(t[4])
-    c.qs = [int(x) for x in t[5:5 + n]]
-    i = 5 + n
+    c.mods = [(c.mbase, c.msize, True)]
+    i = 3
+    if t[i] == "X":
+        k = int(t[i + 1])
+        for j in range(k):
+            c.mods.append((int(t[i + 2 + 3 * j]), int(t[i + 3 + 3 * j]), t[i + 4 + 3 * j] == "1"))
+        i += 2 + 3 * k
+    assert t[i] == "Q"
+    n = int(t[i + 1])
+    c.qs = [int(x) for x in t[i + 2:i + 2 + n]]
+    i += 2 + n
     assert t[i] == "R"
     i += 1
     c.files, c.origins, c.pubs, c.funcs, c.win = {}, {}, [], [], {4: [], 0: []}
@@ -228,9 +241,12 @@ class C11(PropBase):
     translators = []
     bins = ["c11"]
     rule = ("case = records of one symbol file (FILE, INLINE_ORIGIN inside/outside FUNC blocks, PUBLIC, FUNC with line and "
-            "multi-range INLINE records, STACK WIN) + module base/size + query instructions (every record boundary +-1, one below "
-            "the module); the harness prints the .sym text, parses it with the real parser and symbolicates through "
-            "SymbolFile::fill_symbol and through walk_stack/fill_source_line_info; the parsed tables are part of the answer. "
+            "multi-range INLINE records, STACK WIN) + module list (module 0 = base/size with symbols, optional further modules "
+            "before/inside/after it and at the top of the address space, with or without symbols) + query instructions (every "
+            "record boundary +-1, one below the module, module boundaries); the harness prints the .sym text (names decorated "
+            "with spaces, parentheses, templates, tabs, non-ASCII; `m` flags; sparse u32 ids), parses it with the real parser and "
+            "symbolicates through SymbolFile::fill_symbol, through walk_stack/fill_source_line_info/Symbolizer::fill_symbol and "
+            "through Symbolizer::get_symbol_at_address; the parsed tables are part of the answer. "
             "Exhaustive block over a 0..12 address domain, generated nested-inline files (depth <= 8), messy files (overlaps, "
             "duplicates, zero sizes, top of the address space); module bases 0, 0x1000, 2^63, 2^64-1-k. "
             "Non-trivial = some query reports a function together with a source line or inline frame; distinct = distinct case lines")
@@ -244,7 +260,10 @@ class C11(PropBase):
     ]
     assumptions = ["nom line grammar is exercised (the harness goes through SymbolFile::from_bytes), not modelled (C09/C10)",
                    "Symbolizer/SymbolSupplier caching between walk_stack and SymbolFile::fill_symbol is exercised, not modelled (C12)",
-                   "the u32 depth counter of the inline loop cannot overflow with fewer than 2^32-1 INLINE ranges in one FUNC (hypothesis of the theorems)"]
+                   "hypothesis of the theorems: fewer than 2^32-1 INLINE ranges in one FUNC. The u32 depth counter of `for depth in 1..` can only "
+                   "overflow after 2^32-1 successful lookups at depths 1..2^32-1, i.e. 2^32 INLINE records of pairwise distinct depth in one FUNC "
+                   "(each its own line of >= 16 bytes, > 64 GiB of text, and 2^32 x 32-byte Inlinee = 128 GiB of Vec): not reachable by a file the parser can hold",
+                   "module lookup in front-end S is the C08 table (modelled in Driver.v, proved in C08); the composition is compared, not proved"]
     manifest = {
         "text": "Theorems (Coq, all symbol files, addresses, module bases < 2^64, both build profiles): a reported FUNC is a record of the file whose range "
                 "contains the address, bases never exceed the instruction and the additions cannot overflow; the PUBLIC fallback is the last PUBLIC at or "
@@ -264,7 +283,52 @@ class C11(PropBase):
         return ans if not ans.startswith("P;;") else "P;;"
 
     # ------------------------------------------------------------------ generation
-    def queries(self, rng, mbase, items, cap):
+    def sparsify(self, rng, items):
+        """FILE / INLINE_ORIGIN ids become sparse u32 values (0, 2^31, u32::MAX, ...), consistently"""
+        pool = [0, 1, 2, 7, 1000, 65535, 65536, 1 << 31, U32 - 1, U32, 123456789, 4000000000]
+        def mk():
+            m, free = {}, list(pool)
+            def f(i):
+                if i not in m:
+                    m[i] = free.pop(rng.below(len(free))) if free else i + 5000
+                return m[i]
+            return f
+        ff, fo = mk(), mk()
+        out = []
+        for it in items:
+            k = it[0]
+            if k == "F":
+                out.append(("F", ff(it[1]), it[2]))
+            elif k == "O":
+                out.append(("O", fo(it[1]), it[2]))
+            elif k == "L":
+                out.append(("L", it[1], it[2], it[3], ff(it[4])))
+            elif k == "I":
+                out.append(("I", it[1], it[2], ff(it[3]), fo(it[4]), it[5]))
+            else:
+                out.append(it)
+        return out
+
+    def gen_modules(self, rng, mb, msize):
+        extra = []
+        for _ in range(rng.range(1, 3)):
+            st = rng.below(6)
+            if st == 0:
+                b, sz = mb + msize, rng.choice([1, 16, 4096])            # adjacent after module 0
+            elif st == 1:
+                b, sz = max(0, mb - rng.below(64)), rng.below(128)       # before / overlapping its start
+            elif st == 2:
+                b, sz = U64 - rng.below(64), rng.below(80)               # top of the address space, may overflow
+            elif st == 3:
+                b, sz = mb + rng.below(64), rng.below(64)                # inside module 0
+            elif st == 4:
+                b, sz = rng.below(1 << 20), rng.choice([0, 1, U32])
+            else:
+                b, sz = (mb + (1 << 32) + rng.below(16)), rng.choice([64, 4096, U32])
+            extra.append((max(0, min(b, U64)), sz, rng.chance(3, 4)))
+        return extra
+
+    def queries(self, rng, mbase, items, cap, extra=()):
         pts = set()
 
         def rec(a, s):
@@ -287,6 +351,11 @@ class C11(PropBase):
             qs = sorted(keep)
         if mbase > 0:
             qs.append(mbase - 1)
+        few = sorted(v for v in pts if v >= 0)[:8]
+        for (b, sz, _) in extra:
+            for v in [b - 1, b, b + sz - 1, b + sz] + [b + w for w in few[::2]]:
+                if 0 <= v <= U64:
+                    qs.append(v)
         return qs
 
     def gen_exhaustive(self, tier, add):
@@ -464,8 +533,14 @@ class C11(PropBase):
                 kind = "messy_top"
                 mb = rng.choice([0, 0, 1, 30])
             msize = rng.choice([min(U32, U64 - mb), min(U32, U64 - mb), U32, rng.below(64), 0])
-            qs = self.queries(rng, mb, items, 40)
-            add(kind, fmt_case(mb, msize, qs, items))
+            if rng.chance(1, 3):
+                items = self.sparsify(rng, items)
+                kind += "+sparse_ids"
+            extra = self.gen_modules(rng, mb, msize) if rng.chance(1, 2) else []
+            if extra:
+                kind += "+modules"
+            qs = self.queries(rng, mb, items, 40, extra)
+            add(kind, fmt_case(mb, msize, qs, items, extra))
         return cases, dist, True
 
     # ------------------------------------------------------------------ oracle
@@ -478,42 +553,75 @@ class C11(PropBase):
         parts = ans.split(";")
         if len(parts) != 1 + len(c.qs) or not parts[0].startswith("T"):
             return "unparseable answer " + ans[:100]
-        mod_r = rng_func(c.mbase, c.msize) if c.msize <= U32 else None
+        mranges = [rng_func(b, sz) if sz <= U32 else None for (b, sz, _) in c.mods]
         for q, p in zip(c.qs, parts[1:]):
-            d, s = p.split("/S")
+            d, rest = p.split("/S")
+            s, g = rest.split("/G")
             fn, src, inl = parse_out(d[1:])
-            # --- stack-frame view: same data, inlines reversed, only inside the module
-            if in_r(mod_r, q):
-                if s == "-":
-                    return "instruction %d lies in the module but walk_stack did not attach the module" % q
-                fn2, src2, inl2 = parse_out(s)
-                if fn2 != fn or src2 != src:
-                    return "stack frame and fill_symbol callbacks disagree at %d" % q
-                if inl2 != inl[::-1]:
-                    return "stack frame inlines at %d are not the callback order reversed (innermost first): %s vs %s" % (q, inl2, inl)
-            elif s != "-":
-                return "walk_stack symbolicated instruction %d outside the module" % q
-            if q < c.mbase:
-                if fn or src or inl:
-                    return "instruction %d below module base %d was symbolicated" % (q, c.mbase)
-                continue
-            x = q - c.mbase
-            bad = self.sound(c, x, q, fn, src, inl)
+            # --- front-end D: SymbolFile::fill_symbol with module base mbase
+            bad = self.judge(c, c.mbase, q, fn, src, inl)
             if bad:
                 return bad
+            # --- front-end S: module lookup, then the same data with the inlines reversed
+            covering = [i for i, r in enumerate(mranges) if in_r(r, q)]
+            if s == "-":
+                for i in covering:
+                    r = mranges[i]
+                    if all(j == i or o is None or o[1] < r[0] or r[1] < o[0] for j, o in enumerate(mranges)):
+                        return "instruction %d lies in module %d, which intersects no other module, but walk_stack attached no module" % (q, i)
+            else:
+                idx, so = s.split(":", 1)
+                idx = int(idx)
+                if idx not in covering:
+                    return "walk_stack attached module %d to instruction %d outside its range" % (idx, q)
+                fn2, src2, inl2 = parse_out(so)
+                mb, _, hs = c.mods[idx]
+                if not hs:
+                    if fn2 or src2 or inl2:
+                        return "frame at %d symbolicated although module %d has no symbols" % (q, idx)
+                else:
+                    if mb == c.mbase and (fn2 != fn or src2 != src):
+                        return "stack frame and fill_symbol callbacks disagree at %d" % q
+                    if mb == c.mbase and inl2 != inl[::-1]:
+                        return "stack frame inlines at %d are not the callback order reversed (innermost first): %s vs %s" % (q, inl2, inl)
+                    bad = self.judge(c, mb, q, fn2, src2, inl2[::-1])
+                    if bad:
+                        return "module %d: %s" % (idx, bad)
+            # --- front-end G: get_symbol_at_address = module base 0, name only
+            gname = None if g == "-" else int(g)
             if c.nonoverlap:
-                rf, rs, ri = reference(c, x)
-                want_fn = (rf[0], rf[1] + c.mbase, rf[2]) if rf else None
-                want_src = (rs[0], rs[1], rs[2] + c.mbase) if rs else None
-                if fn != want_fn:
-                    return "non-overlapping file: function at %d is %s, linear scan says %s" % (x, fn, want_fn)
-                if src != want_src:
-                    return "non-overlapping file: source line at %d is %s, linear scan says %s" % (x, src, want_src)
-                if inl != ri:
-                    return "non-overlapping file: inline frames at %d are %s, linear scan says %s" % (x, inl, ri)
+                rf, _, _ = reference(c, q)
+                if gname != (rf[0] if rf else None):
+                    return "get_symbol_at_address(%d) = %s, linear scan says %s" % (q, gname, rf[0] if rf else None)
+            elif gname is not None:
+                if not any(f.name == gname and in_r(rng_func(f.addr, f.size), q) for f in c.funcs) and \
+                        not any(pb[1] == gname and pb[0] <= q for pb in c.pubs):
+                    return "get_symbol_at_address(%d) = %s: no FUNC of that name contains the address and no PUBLIC of that name is at or below it" % (q, gname)
         return None
 
-    def sound(self, c, x, q, fn, src, inl):
+    def judge(self, c, mbase, q, fn, src, inl):
+        """one symbolication result (callback order) for a module loaded at mbase"""
+        if q < mbase:
+            if fn or src or inl:
+                return "instruction %d below module base %d was symbolicated" % (q, mbase)
+            return None
+        x = q - mbase
+        bad = self.sound(c, mbase, x, q, fn, src, inl)
+        if bad:
+            return bad
+        if c.nonoverlap:
+            rf, rs, ri = reference(c, x)
+            want_fn = (rf[0], rf[1] + mbase, rf[2]) if rf else None
+            want_src = (rs[0], rs[1], rs[2] + mbase) if rs else None
+            if fn != want_fn:
+                return "non-overlapping file: function at %d is %s, linear scan says %s" % (x, fn, want_fn)
+            if src != want_src:
+                return "non-overlapping file: source line at %d is %s, linear scan says %s" % (x, src, want_src)
+            if inl != ri:
+                return "non-overlapping file: inline frames at %d are %s, linear scan says %s" % (x, inl, ri)
+        return None
+
+    def sound(self, c, mbase, x, q, fn, src, inl):
         if fn is None:
             if src or inl:
                 return "source line or inline frames without a function at %d" % x
@@ -524,7 +632,7 @@ class C11(PropBase):
         name, base, ps = fn
         if base > q:
             return "function_base %d exceeds the instruction %d" % (base, q)
-        fa = base - c.mbase
+        fa = base - mbase
         if src is None and not inl:
             # may be a PUBLIC
             for p in c.pubs:
@@ -538,7 +646,7 @@ class C11(PropBase):
         for f in c.funcs:
             if f.name != name or f.addr != fa or not in_r(rng_func(f.addr, f.size), x):
                 continue
-            e = self.sound_in(c, f, x, q, ps, src, inl)
+            e = self.sound_in(c, mbase, f, x, q, ps, src, inl)
             if e is None:
                 return None
             errs.append(e)
@@ -546,7 +654,7 @@ class C11(PropBase):
             return errs[0]
         return "reported function %s at %d is neither a FUNC record containing the address nor an admissible PUBLIC" % (fn, x)
 
-    def sound_in(self, c, f, x, q, ps, src, inl):
+    def sound_in(self, c, mbase, f, x, q, ps, src, inl):
         if ps != f.psize and not any(p == ps and in_r(rng_func(a, s), x) for ty in (4, 0) for (a, s, p, _) in c.win[ty]):
             return "parameter size %d at %d is neither the FUNC's nor that of a STACK WIN record covering the address" % (ps, x)
         cover = [e for e in f.inls if e[1] <= x < e[1] + e[2]]
@@ -554,7 +662,7 @@ class C11(PropBase):
             fl, ln, b = src
             if b > q:
                 return "source_line_base %d exceeds the instruction %d" % (b, q)
-            la = b - c.mbase
+            la = b - mbase
             ok = any(l[0] == la and l[2] == ln and c.files.get(l[3]) == fl and in_r(rng_line(l[0], l[1]), x) for l in f.lines) or \
                 any(e[0] == 0 and e[1] == la and e[4] == ln and c.files.get(e[3]) == fl for e in cover)
             if not ok:
